@@ -310,6 +310,16 @@ def _spec(g, scale):
                 g.emit("spec %s %s %s %s" % (y, e, stream, dg))
             g.emit("ser %s" % y)
             g.count("spec:offset-header-multiple-of-512")
+    # EVERY one of the 65536 keys populated, written by another implementation under both cookies (the run-capable cookie stores
+    # the count minus one in 16 bits, the plain one the count in 32 bits), and the neighbouring count 65535
+    for n, rc, first in ((65536, None, 0), (65536, True, 0), (65535, True, 1)):
+        conts = [(k, "A", [(7, 7)]) for k in range(first, first + n)]
+        if rc:
+            conts[5] = (conts[5][0], "R", [(100, 130)])
+        y = g.fresh()
+        g.emit("spec %s %s %s %s" % (y, "readfrom" if rc else "frombuffer", enc_stream(conts, run_cookie=rc).hex(), fnv_digest(conts)))
+        g.emit("card %s" % y)
+        g.count("spec:all-keys-populated")
     # conformant streams into receivers that grew chunk by chunk (container counts in the gaps between their slice capacities)
     for n0, cnts in ((45, [65, 71]), (100, [129, 143]), (200, [257, 303])):
         for cnt in cnts:
